@@ -12,6 +12,12 @@ import Poulpy.Lemmas.KsNoise
 import Poulpy.Lemmas.LweIdx
 import Poulpy.Lemmas.PackValue
 import Poulpy.Lemmas.KsCompose
+import Poulpy.Lemmas.KsDecrypt
+import Poulpy.Lemmas.PackLoops
+import Poulpy.Lemmas.ExpandExec
+import Poulpy.Lemmas.AutoDecrypt
+import Poulpy.Lemmas.LweDecrypt
+import Poulpy.Lemmas.NoisyTrace
 import Poulpy.Model.Core.Pack
 import Poulpy.Props.C09
 
@@ -1063,5 +1069,738 @@ theorem packer_value_decomp (c : Contract M) (lb : ℕ) (g u w : ℕ → M) (m :
   apply Pack.packer_value_decomp <;> assumption
 
 end Closing
+
+/-! ## End-to-end round
+
+* `glwe_keyswitch_decrypts`: the executed key switch including both radix conversions, kernel hypotheses discharged with C08.
+* executed packing loops = abstract trees, by induction on levels / arrivals (`Lemmas/PackLoops.lean`).
+* GGSW forms on the executed row expansion, without `hexp` (`Lemmas/ExpandExec.lean`; `expand_executed_identity` lives there too, since
+  Props/C04 imports Props/C03 and cannot be imported from here). -/
+
+section KsDecryptSec
+open KsDec Hal Core Core.Ops C02L
+variable {M : Type*} [AddCommGroup M]
+
+/-- **`glwe_keyswitch_decrypts`** — END TO END, the executed `Ks.keyswitch` including the conversion of the input into the key radix and the final normalisation into the result radix: every rank in/out, every `dsize ≥ 1`, `dnum`, three radices in `1..62`, all limb counts, `i64` and `i128` accumulators.  Hypotheses: well-formedness of `a` and of the key, digit head-room (`Hin`, product bound `Hp`, one inequality `Hp + Hin + 2^bkey + 8 ≤ 2^62 / 2^126`), the key relation with explicit key error `EL` (and the multiple `KL` of the torus modulus a real key carries), covered regime (`the converted input has at most min(key.size, dnum·dsize) limbs`).  Conclusion: the call returns a well-formed `res` and `2^(bin·sa+bkey·S)·phase_out(res) = 2^(bout·so+bkey·S)·phase_in(a) + Err + 2^(…)·Q` in `ℤ[X]/(X^N+1)` with `‖Err‖_∞ ≤ c1·(1+‖sIn‖₁)·tol_conv + c2·Σ‖digit‖₁‖E‖_∞ + c2·dropped + c3·(1+‖skOut‖₁)·tol_norm` — all kernel hypotheses discharged with C08's unconditional value theorems. -/
+theorem glwe_keyswitch_decrypts (big128 : Bool) (N bout sout rout : Nat) (a : Ks.Ct) (key : Ks.Key) (sIn skOut : List Poly)
+    (EL KL : ℕ → ℕ → Poly) (Hin Hp : Int)
+    (hN : 0 < N) (ha : GWF N a) (hrank : a.rank = key.rankIn) (hrout : rout = key.rankOut) (hc0 : 0 < key.mat.colsOut)
+    (hD : 1 ≤ key.dsize) (hM : ∀ j q, (key.mat.entry j q).length = N) (hS : key.mat.rows * key.dsize ≤ key.mat.size)
+    (hbi1 : 1 ≤ a.base2k) (hbi : a.base2k ≤ 62) (hbk1 : 1 ≤ key.base2k) (hbk : key.base2k ≤ 62) (hbo1 : 1 ≤ bout) (hbo : bout ≤ 62)
+    (hIn0 : 0 ≤ Hin) (hIn : Hin + 8 ≤ 2 ^ 62) (hInB : ∀ c ∈ a.cols, ∀ l ∈ c, ∀ x ∈ l, |x| ≤ Hin)
+    (hHp0 : 0 ≤ Hp) (hAcc : Hp + (Hin + 2 ^ key.base2k) + 8 ≤ 2 ^ (bitsOf big128 - 2))
+    (hprod : ∀ aConv, Ks.convIn a key = .ok aConv → ∀ i, i < rout + 1 → ∀ l ∈ (prodOf rout aConv key).act i, ∀ x ∈ l, |x| ≤ Hp)
+    (hs : key.mat.colsIn ≤ sIn.length)
+    (hEL : ∀ i r, (EL i r).length = N) (hKL : ∀ i r, (KL i r).length = N)
+    (hkey : ∀ i, i < key.mat.colsIn → ∀ r, r < key.mat.rows →
+      Gadget.val (Ks.radix N key.base2k) key.mat.size (Ks.keyPhase N skOut key.mat i r) =
+        Ks.ι N (sIn.getD i []) * Ks.radix N key.base2k ^ (key.mat.size - (r + 1) * key.dsize) + Ks.ι N (EL i r)
+          + Ks.radix N key.base2k ^ key.mat.size * Ks.ι N (KL i r))
+    (hcov1 : convSize a key ≤ key.mat.size) (hcov2 : convSize a key ≤ key.mat.rows * key.dsize) :
+    ∃ res aConv, Ks.keyswitch big128 bout sout rout a key = .ok res ∧ Ks.convIn a key = .ok aConv ∧
+      GWF N res ∧ res.base2k = bout ∧ res.size = sout ∧ res.rank = rout ∧
+      ∃ (E1 E3 : Poly) (Q : Ks.R N), E1.length = N ∧ E3.length = N ∧
+        normInf E1 ≤ (1 + snorm (min a.rank sIn.length) sIn) * C02.normTol (key.base2k * convSize a key) (a.base2k * a.size) ∧
+        normInf E3 ≤ (1 + snorm (min rout skOut.length) skOut) * C02.normTol (bout * sout) (key.base2k * key.mat.size) ∧
+        (2 : Ks.R N) ^ (a.base2k * a.size + key.base2k * key.mat.size) * Ks.ι N (valP bout N (phase skOut res))
+          = (2 : Ks.R N) ^ (bout * sout + key.base2k * key.mat.size) * Ks.ι N (valP a.base2k N (phase sIn a))
+            + Ks.ι N (ksErr (2 ^ (bout * sout + key.base2k * (key.mat.size - convSize a key))) (2 ^ (a.base2k * a.size + bout * sout))
+                (2 ^ (a.base2k * a.size)) E1 (Ks.errL N key.base2k (aDftOf aConv) key EL)
+                (Ks.dropL N key.base2k skOut (aDftOf aConv) key) E3)
+            + (2 : Ks.R N) ^ (a.base2k * a.size + bout * sout + key.base2k * key.mat.size) * Q ∧
+        normInf (ksErr (2 ^ (bout * sout + key.base2k * (key.mat.size - convSize a key))) (2 ^ (a.base2k * a.size + bout * sout))
+                (2 ^ (a.base2k * a.size)) E1 (Ks.errL N key.base2k (aDftOf aConv) key EL)
+                (Ks.dropL N key.base2k skOut (aDftOf aConv) key) E3)
+          ≤ 2 ^ (bout * sout + key.base2k * (key.mat.size - convSize a key)) *
+              ((1 + snorm (min a.rank sIn.length) sIn) * C02.normTol (key.base2k * convSize a key) (a.base2k * a.size))
+            + 2 ^ (a.base2k * a.size + bout * sout) * gadgetBound N key.base2k (aDftOf aConv) key EL
+            + 2 ^ (a.base2k * a.size + bout * sout) * dropBound N key.base2k skOut (aDftOf aConv) key
+            + 2 ^ (a.base2k * a.size) *
+              ((1 + snorm (min rout skOut.length) skOut) * C02.normTol (bout * sout) (key.base2k * key.mat.size)) :=
+  KsDec.glwe_keyswitch_decrypts big128 N bout sout rout a key sIn skOut EL KL Hin Hp hN ha hrank hrout hc0 hD hM hS hbi1 hbi hbk1 hbk hbo1 hbo hIn0 hIn hInB hHp0 hAcc hprod hs hEL hKL hkey hcov1 hcov2
+
+/-- the in-place form `glwe_keyswitch_assign` -/
+theorem glwe_keyswitch_assign_decrypts (big128 : Bool) (N : Nat) (a : Ks.Ct) (key : Ks.Key) (sIn skOut : List Poly)
+    (EL KL : ℕ → ℕ → Poly) (Hin Hp : Int)
+    (hN : 0 < N) (ha : GWF N a) (hrank : a.rank = key.rankIn) (hrout : a.rank = key.rankOut) (hc0 : 0 < key.mat.colsOut)
+    (hD : 1 ≤ key.dsize) (hM : ∀ j q, (key.mat.entry j q).length = N) (hS : key.mat.rows * key.dsize ≤ key.mat.size)
+    (hbi1 : 1 ≤ a.base2k) (hbi : a.base2k ≤ 62) (hbk1 : 1 ≤ key.base2k) (hbk : key.base2k ≤ 62)
+    (hIn0 : 0 ≤ Hin) (hIn : Hin + 8 ≤ 2 ^ 62) (hInB : ∀ c ∈ a.cols, ∀ l ∈ c, ∀ x ∈ l, |x| ≤ Hin)
+    (hHp0 : 0 ≤ Hp) (hAcc : Hp + (Hin + 2 ^ key.base2k) + 8 ≤ 2 ^ (bitsOf big128 - 2))
+    (hprod : ∀ aConv, Ks.convIn a key = .ok aConv → ∀ i, i < a.rank + 1 → ∀ l ∈ (prodOf a.rank aConv key).act i, ∀ x ∈ l, |x| ≤ Hp)
+    (hs : key.mat.colsIn ≤ sIn.length)
+    (hEL : ∀ i r, (EL i r).length = N) (hKL : ∀ i r, (KL i r).length = N)
+    (hkey : ∀ i, i < key.mat.colsIn → ∀ r, r < key.mat.rows →
+      Gadget.val (Ks.radix N key.base2k) key.mat.size (Ks.keyPhase N skOut key.mat i r) =
+        Ks.ι N (sIn.getD i []) * Ks.radix N key.base2k ^ (key.mat.size - (r + 1) * key.dsize) + Ks.ι N (EL i r)
+          + Ks.radix N key.base2k ^ key.mat.size * Ks.ι N (KL i r))
+    (hcov1 : convSize a key ≤ key.mat.size) (hcov2 : convSize a key ≤ key.mat.rows * key.dsize) :
+    ∃ res aConv, Ks.keyswitch big128 a.base2k a.size a.rank a key = .ok res ∧ Ks.convIn a key = .ok aConv ∧
+      GWF N res ∧ res.base2k = a.base2k ∧ res.size = a.size ∧ res.rank = a.rank ∧
+      ∃ (E1 E3 : Poly) (Q : Ks.R N), E1.length = N ∧ E3.length = N ∧
+        normInf E1 ≤ (1 + snorm (min a.rank sIn.length) sIn) * C02.normTol (key.base2k * convSize a key) (a.base2k * a.size) ∧
+        normInf E3 ≤ (1 + snorm (min a.rank skOut.length) skOut) * C02.normTol (a.base2k * a.size) (key.base2k * key.mat.size) ∧
+        (2 : Ks.R N) ^ (a.base2k * a.size + key.base2k * key.mat.size) * Ks.ι N (valP a.base2k N (phase skOut res))
+          = (2 : Ks.R N) ^ (a.base2k * a.size + key.base2k * key.mat.size) * Ks.ι N (valP a.base2k N (phase sIn a))
+            + Ks.ι N (ksErr (2 ^ (a.base2k * a.size + key.base2k * (key.mat.size - convSize a key))) (2 ^ (a.base2k * a.size + a.base2k * a.size))
+                (2 ^ (a.base2k * a.size)) E1 (Ks.errL N key.base2k (aDftOf aConv) key EL)
+                (Ks.dropL N key.base2k skOut (aDftOf aConv) key) E3)
+            + (2 : Ks.R N) ^ (a.base2k * a.size + a.base2k * a.size + key.base2k * key.mat.size) * Q ∧
+        normInf (ksErr (2 ^ (a.base2k * a.size + key.base2k * (key.mat.size - convSize a key))) (2 ^ (a.base2k * a.size + a.base2k * a.size))
+                (2 ^ (a.base2k * a.size)) E1 (Ks.errL N key.base2k (aDftOf aConv) key EL)
+                (Ks.dropL N key.base2k skOut (aDftOf aConv) key) E3)
+          ≤ 2 ^ (a.base2k * a.size + key.base2k * (key.mat.size - convSize a key)) *
+              ((1 + snorm (min a.rank sIn.length) sIn) * C02.normTol (key.base2k * convSize a key) (a.base2k * a.size))
+            + 2 ^ (a.base2k * a.size + a.base2k * a.size) * gadgetBound N key.base2k (aDftOf aConv) key EL
+            + 2 ^ (a.base2k * a.size + a.base2k * a.size) * dropBound N key.base2k skOut (aDftOf aConv) key
+            + 2 ^ (a.base2k * a.size) *
+              ((1 + snorm (min a.rank skOut.length) skOut) * C02.normTol (a.base2k * a.size) (key.base2k * key.mat.size)) :=
+  KsDec.glwe_keyswitch_assign_decrypts big128 N a key sIn skOut EL KL Hin Hp hN ha hrank hrout hc0 hD hM hS hbi1 hbi hbk1 hbk hIn0 hIn hInB hHp0 hAcc hprod hs hEL hKL hkey hcov1 hcov2
+
+/-- the general regime (no covering assumption): stage relations with the used part of the input explicit -/
+theorem glwe_keyswitch_value (big128 : Bool) (N bout sout rout : Nat) (a : Ks.Ct) (key : Ks.Key) (sIn skOut : List Poly)
+    (EL KL : ℕ → ℕ → Poly) (Hin Hp : Int)
+    (hN : 0 < N) (ha : GWF N a) (hrank : a.rank = key.rankIn) (hrout : rout = key.rankOut) (hc0 : 0 < key.mat.colsOut)
+    (hD : 1 ≤ key.dsize) (hM : ∀ j q, (key.mat.entry j q).length = N) (hS : key.mat.rows * key.dsize ≤ key.mat.size)
+    (hbi1 : 1 ≤ a.base2k) (hbi : a.base2k ≤ 62) (hbk1 : 1 ≤ key.base2k) (hbk : key.base2k ≤ 62) (hbo1 : 1 ≤ bout) (hbo : bout ≤ 62)
+    (hIn0 : 0 ≤ Hin) (hIn : Hin + 8 ≤ 2 ^ 62) (hInB : ∀ c ∈ a.cols, ∀ l ∈ c, ∀ x ∈ l, |x| ≤ Hin)
+    (hHp0 : 0 ≤ Hp) (hAcc : Hp + (Hin + 2 ^ key.base2k) + 8 ≤ 2 ^ (bitsOf big128 - 2))
+    (hprod : ∀ aConv, Ks.convIn a key = .ok aConv → ∀ i, i < rout + 1 → ∀ l ∈ (prodOf rout aConv key).act i, ∀ x ∈ l, |x| ≤ Hp)
+    (hEL : ∀ i r, (EL i r).length = N) (hKL : ∀ i r, (KL i r).length = N)
+    (hkey : ∀ i, i < key.mat.colsIn → ∀ r, r < key.mat.rows →
+      Gadget.val (Ks.radix N key.base2k) key.mat.size (Ks.keyPhase N skOut key.mat i r) =
+        Ks.ι N (sIn.getD i []) * Ks.radix N key.base2k ^ (key.mat.size - (r + 1) * key.dsize) + Ks.ι N (EL i r)
+          + Ks.radix N key.base2k ^ key.mat.size * Ks.ι N (KL i r)) :
+    ∃ res aConv, Ks.keyswitch big128 bout sout rout a key = .ok res ∧ Ks.convIn a key = .ok aConv ∧
+      GWF N aConv ∧ aConv.base2k = key.base2k ∧ aConv.rank = a.rank ∧ aConv.size = convSize a key ∧
+      GWF N res ∧ res.base2k = bout ∧ res.size = sout ∧ res.rank = rout ∧
+      ∃ E1 Q1 E3 Q3 : Poly, E1.length = N ∧ Q1.length = N ∧ E3.length = N ∧ Q3.length = N ∧
+        normInf E1 ≤ (1 + snorm (min a.rank sIn.length) sIn) * C02.normTol (key.base2k * convSize a key) (a.base2k * a.size) ∧
+        normInf E3 ≤ (1 + snorm (min rout skOut.length) skOut) * C02.normTol (bout * sout) (key.base2k * key.mat.size) ∧
+        (2 : Ks.R N) ^ (a.base2k * a.size) * Ks.ι N (valP key.base2k N (phase sIn aConv))
+          = (2 : Ks.R N) ^ (key.base2k * convSize a key) * Ks.ι N (valP a.base2k N (phase sIn a)) + Ks.ι N E1
+            + (2 : Ks.R N) ^ (key.base2k * convSize a key + a.base2k * a.size) * Ks.ι N Q1 ∧
+        (2 : Ks.R N) ^ (key.base2k * key.mat.size) * Ks.ι N (valP bout N (phase skOut res))
+          = (2 : Ks.R N) ^ (bout * sout) *
+              (∑ i ∈ Finset.range key.mat.colsIn, Ks.ι N (sIn.getD i []) *
+                  Gadget.usedVal (Ks.radix N key.base2k) key.mat.size key.dsize key.mat.rows aConv.size (Ks.inLimb N (aDftOf aConv) i)
+                + Ks.ι N (valP key.base2k N (fit N key.mat.size (aConv.cols.getD 0 [])))
+                + Ks.ι N (Ks.errL N key.base2k (aDftOf aConv) key EL) - Ks.ι N (Ks.dropL N key.base2k skOut (aDftOf aConv) key))
+            + Ks.ι N E3
+            + (2 : Ks.R N) ^ (bout * sout + key.base2k * key.mat.size) *
+                (Ks.ι N Q3 + Ks.ι N (Ks.errL N key.base2k (aDftOf aConv) key KL)
+                  - ∑ i ∈ Finset.range key.mat.colsIn,
+                      Gadget.head (Ks.radix N key.base2k) key.dsize key.mat.rows aConv.size (Ks.inLimb N (aDftOf aConv) i)
+                        (Ks.keyPhase N skOut key.mat i)) :=
+  KsDec.glwe_keyswitch_value big128 N bout sout rout a key sIn skOut EL KL Hin Hp hN ha hrank hrout hc0 hD hM hS hbi1 hbi hbk1 hbk hbo1 hbo hIn0 hIn hInB hHp0 hAcc hprod hEL hKL hkey
+
+
+/-- closed instance (full discharge of every hypothesis, both accumulator widths, same-radix and cross-radix 2/4/3 inputs: the two
+`example`s at the end of `Lemmas/KsDecrypt.lean`); here: the executed call on that instance succeeds -/
+example : ∃ res, Ks.keyswitch false 3 2 0 KsDec.exCt Ks.AccumExample.exKey3 = .ok res := ⟨_, rfl⟩
+example : ∃ res, Ks.keyswitch true 3 2 0 KsDec.exCt2 Ks.AccumExample.exKey3 = .ok res := ⟨_, rfl⟩
+end KsDecryptSec
+
+section PackLoopsSec
+open Hal Core Ks Pack
+variable {M : Type*} [AddCommGroup M]
+
+/-- **the executed `glwe_pack` level loop is `Pack.after`**, by induction on the number of levels: slot `j` of the map after `L` levels has phase `Pack.after c s (phases of the inputs) L j` -/
+theorem pack_levels_executed (c : Pack.Contract M) (ph : Ct → M) (N : Nat) (big128 : Bool) (keyOf : Nat → Key)
+    (H : IdealOps c ph N big128 keyOf) (keys : List Key) (K : Nat) (hK : log2Nat N = K) (L : Nat) (hL : L ≤ K)
+    (ht : ∀ i, i < L → c.t i = ((2 ^ (K - i - 1) : Nat) : Int))
+    (hkey : ∀ i, i < L → levelKey N keys i = .ok (keyOf i))
+    (m m' : SlotMap) (hm : ∀ j, 2 ^ K ≤ j → m.get j = none)
+    (h : packLevels big128 N keys (List.range L) m = .ok m') :
+    (∀ j, j < 2 ^ (K - L) → phMap ph m' j = Pack.after c (fun i => 2 ^ (K - 1 - i)) (phMap ph m) L j) ∧
+    (∀ j, 2 ^ (K - L) ≤ j → m'.get j = none) :=
+  Ks.packLevels_phase c ph N big128 keyOf H keys K hK L hL ht hkey m m' hm h
+
+/-- the executed `Ks.pack` = level loop + trace -/
+theorem pack_executed_phase (c : Pack.Contract M) (ph phOut : Ct → M) (N : Nat) (big128 : Bool) (keyOf : Nat → Key)
+    (H : IdealOps c ph N big128 keyOf) (keyBase2k : Nat) (keys : List Key) (rb rs : Nat) (K : Nat)
+    (hK : log2Nat N = K) (hN : N = 2 ^ K) (logGapOut : Nat)
+    (ht : ∀ i, i < K - logGapOut → c.t i = ((2 ^ (K - i - 1) : Nat) : Int))
+    (hkey : ∀ i, i < K - logGapOut → levelKey N keys i = .ok (keyOf i))
+    (htrace : ∀ x r, trace big128 keyBase2k keys (K - logGapOut) rb rs x = .ok r →
+      phOut r = traceAbs c (List.range' (K - logGapOut) (K - (K - logGapOut))) (ph x))
+    (a : SlotMap) (res : Ct) (h : pack big128 N keyBase2k keys rb rs a logGapOut = .ok res) :
+    phOut res = traceAbs c (List.range' (K - logGapOut) (K - (K - logGapOut)))
+      (Pack.after c (fun i => 2 ^ (K - 1 - i)) (phMap ph a) (K - logGapOut) 0) :=
+  Ks.pack_executed_phase c ph phOut N big128 keyOf H keyBase2k keys rb rs K hK hN logGapOut ht hkey htrace a res h
+
+/-- **`pack_value_all_subsets` on the executed model**: the phase of the executed `glwe_pack` result is `Σ_{m∈S} X^{J_m}·u_{J_m}` for every subset `S` of slots -/
+theorem pack_executed_value (c : Pack.Contract M) (ph phOut : Ct → M) (N : Nat) (big128 : Bool) (keyOf : Nat → Key)
+    (H : IdealOps c ph N big128 keyOf) (keyBase2k : Nat) (keys : List Key) (rb rs : Nat) (K : Nat)
+    (hK : log2Nat N = K) (hN : N = 2 ^ K) (logGapOut : Nat)
+    (ht : ∀ i, i < K - logGapOut → c.t i = ((2 ^ (K - i - 1) : Nat) : Int))
+    (hkey : ∀ i, i < K - logGapOut → levelKey N keys i = .ok (keyOf i))
+    (htrace : ∀ x r, trace big128 keyBase2k keys (K - logGapOut) rb rs x = .ok r →
+      phOut r = traceAbs c (List.range' (K - logGapOut) (K - (K - logGapOut))) (ph x))
+    (a : SlotMap) (res : Ct) (h : pack big128 N keyBase2k keys rb rs a logGapOut = .ok res)
+    (u w : Nat → M) (hf : ∀ J, phMap ph a J = u J + w J)
+    (hu : ∀ J i, i < K → c.sig i (u J) = u J)
+    (hw : ∀ J, traceAbs c (List.range K) (w J) = 0)
+    (S : Finset Nat) (hS : S ⊆ Finset.range (2 ^ (K - logGapOut)))
+    (habs : ∀ m ∈ Finset.range (2 ^ (K - logGapOut)), m ∉ S →
+      u (Pack.idxOff (fun i => 2 ^ (K - 1 - i)) (K - logGapOut) m) = 0) :
+    phOut res = ∑ m ∈ S, c.rot (Pack.idxOff (fun i => 2 ^ (K - 1 - i)) (K - logGapOut) m : ℤ)
+      (u (Pack.idxOff (fun i => 2 ^ (K - 1 - i)) (K - logGapOut) m)) :=
+  Ks.pack_executed_value c ph phOut N big128 keyOf H keyBase2k keys rb rs K hK hN logGapOut ht hkey htrace a res h u w hf hu hw S hS habs
+
+/-- the accumulator chain of the streaming packer is a binary counter: one `pack_core` call (any carry-chain length) maintains the invariant `CInv` -/
+theorem packer_core_executed (c : Pack.Contract M) (ph : Ct → M) (N : Nat) (big128 : Bool) (keyOf : Nat → Key)
+    (H : IdealOps c ph N big128 keyOf) (keys : List Key) (K : Nat) (hK : log2Nat N = K) (lb : Nat)
+    (ht : ∀ i, i < K → c.t i = ((2 ^ (K - i - 1) : Nat) : Int))
+    (hkey : ∀ i, i < K → levelKey N keys i = .ok (keyOf i))
+    (hcopy : ∀ r x y, Core.Ops.glweCopy N r x = .ok y → ph y = ph x)
+    (hnorm : ∀ r x y, Core.Ops.glweNormalize N r x = .ok y → ph y = ph x)
+    (g : Nat → M) (p : Nat → Bool)
+    (accs : List Acc) (q n : Nat) (hlen : lb + q + accs.length = K) (hinv : CInv c ph lb g p q n accs)
+    (x : Option Ct) (hx : optPh ph x = blk c lb g q (n * 2 ^ q)) (hxp : x.isSome = presAfter p q (n * 2 ^ q))
+    (accs' : List Acc) (h : packCore big128 N keys accs x (lb + q) = .ok accs') :
+    CInv c ph lb g p q (n + 1) accs' ∧ accs'.length = accs.length :=
+  Ks.packCore_phase c ph N big128 keyOf H keys K hK lb ht hkey hcopy hnorm g p accs q n hlen hinv x hx hxp accs' h
+
+/-- **the executed streaming `GLWEPacker` (adds + flush) is `Pack.packerVal`**, by induction on the arrivals -/
+theorem packer_run_executed (c : Pack.Contract M) (ph phOut : Ct → M) (N : Nat) (big128 : Bool) (keyOf : Nat → Key)
+    (H : IdealOps c ph N big128 keyOf) (keys : List Key) (K : Nat) (hK : log2Nat N = K) (hN : N = 2 ^ K) (lb m : Nat)
+    (hm : lb + m = K)
+    (ht : ∀ i, i < K → c.t i = ((2 ^ (K - i - 1) : Nat) : Int))
+    (hkey : ∀ i, i < K → levelKey N keys i = .ok (keyOf i))
+    (hcopy : ∀ r x y, Core.Ops.glweCopy N r x = .ok y → ph y = ph x)
+    (hnorm : ∀ r x y, Core.Ops.glweNormalize N r x = .ok y → ph y = ph x)
+    (hcopyOut : ∀ r x y, Core.Ops.glweCopy N r x = .ok y → phOut y = ph x)
+    (hnormOut : ∀ r x y, Core.Ops.glweNormalize N r x = .ok y → phOut y = ph x)
+    (accBase2k accSize rank : Nat) (inputs : Nat → Option Ct) (res r : Ct)
+    (hpres : ∃ k, k < 2 ^ m ∧ (inputs k).isSome = true)
+    (h : packerRun big128 N keys accBase2k accSize rank lb inputs res = .ok r) :
+    phOut r = Pack.packerVal c lb (fun k => optPh ph (inputs k)) m :=
+  Ks.packerRun_phase c ph phOut N big128 keyOf H keys K hK hN lb m hm ht hkey hcopy hnorm hcopyOut hnormOut accBase2k accSize rank inputs res r hpres h
+
+/-- `packer_value_all_subsets` on the executed model -/
+theorem packer_executed_value (c : Pack.Contract M) (ph phOut : Ct → M) (N : Nat) (big128 : Bool) (keyOf : Nat → Key)
+    (H : IdealOps c ph N big128 keyOf) (keys : List Key) (K : Nat) (hK : log2Nat N = K) (hN : N = 2 ^ K) (lb m : Nat)
+    (hm : lb + m = K)
+    (ht : ∀ i, i < K → c.t i = ((2 ^ (K - i - 1) : Nat) : Int))
+    (hkey : ∀ i, i < K → levelKey N keys i = .ok (keyOf i))
+    (hcopy : ∀ r x y, Core.Ops.glweCopy N r x = .ok y → ph y = ph x)
+    (hnorm : ∀ r x y, Core.Ops.glweNormalize N r x = .ok y → ph y = ph x)
+    (hcopyOut : ∀ r x y, Core.Ops.glweCopy N r x = .ok y → phOut y = ph x)
+    (hnormOut : ∀ r x y, Core.Ops.glweNormalize N r x = .ok y → phOut y = ph x)
+    (accBase2k accSize rank : Nat) (inputs : Nat → Option Ct) (res r : Ct)
+    (hpres : ∃ k, k < 2 ^ m ∧ (inputs k).isSome = true)
+    (h : packerRun big128 N keys accBase2k accSize rank lb inputs res = .ok r)
+    (u : Nat → M) (hQ : ∀ k, Pack.Q (Pack.shift c lb) m (optPh ph (inputs k)) = u k)
+    (S : Finset Nat) (hS : S ⊆ Finset.range (2 ^ m)) (habs : ∀ k ∈ Finset.range (2 ^ m), k ∉ S → u k = 0) :
+    phOut r = ∑ k ∈ S, c.rot (Pack.revOff c lb m k) (u k) :=
+  Ks.packer_executed_value c ph phOut N big128 keyOf H keys K hK hN lb m hm ht hkey hcopy hnorm hcopyOut hnormOut accBase2k accSize rank inputs res r hpres h u hQ S hS habs
+
+/-- the executed `Ks.trace` (copy/normalise in, level loop, copy/normalise out) maps the phase to `traceAbs` -/
+theorem trace_executed_phase (c : Pack.Contract M) (ph phK phOut : Ct → M) (big128 : Bool) (keys : List Key)
+    (keyBase2k skip rb rs K : Nat)
+    (hrsh : ∀ x y, glweRsh 1 x = .ok y → phK y = c.half (phK x))
+    (hauto : ∀ i x key p y, traceGalois x.n i = .ok p → keys.find? (fun k => k.p == p) = some key →
+      automorphismFused .add big128 (zeroBuf x.n (x.rank + 1) key.size) x.base2k x.size x.rank x key = .ok y →
+      (y.n = x.n ∧ phK y = phK x + c.sig i (phK x)))
+    (hn : ∀ x y, glweRsh 1 x = .ok y → y.n = x.n)
+    (hinC : ∀ b s x, phK (glweCopy b s x) = ph x)
+    (hinN : ∀ b s x y, glweNormalize b s x = .ok y → phK y = ph x)
+    (houtC : ∀ b s x, phOut (glweCopy b s x) = phK x)
+    (houtN : ∀ b s x y, glweNormalize b s x = .ok y → phOut y = phK x)
+    (x r : Ct) (hxn : log2Nat x.n = K) (h : trace big128 keyBase2k keys skip rb rs x = .ok r) :
+    phOut r = traceAbs c (List.range' skip (K - skip)) (ph x) :=
+  Ks.trace_phase c ph phK phOut big128 keys keyBase2k skip rb rs K hrsh hauto hn hinC hinN houtC houtN x r hxn h
+
+
+/-- closed instances (`Lemmas/PackLoops.lean`): the executed level loop / `glwe_pack` / packer on `N = 2` data, and the contract instance -/
+example : packLevels false 2 [Ks.exKeyM1] (List.range 1) [] = .ok [] := rfl
+example : pack false 1 4 [] 4 1 [(0, mkCt 4 1 [[[5]], [[7]]])] 0 = .ok (mkCt 4 1 [[[5]], [[7]]]) := rfl
+example : Ks.IdealOps Pack.model (fun _ => (0 : ℚ × ℚ)) 2 false (fun _ => Ks.exKeyM1) := Ks.idealOps_zero 2 false _
+end PackLoopsSec
+
+section ExpandExecSec
+open Hal Core Ks C02L Core.Ops
+variable {M : Type*} [AddCommGroup M]
+
+/-- **the row-expansion identity on the executed accumulator** (the former `hexp`, now a theorem; copy of `C04.expand_executed_identity` moved to Lemmas/ExpandExec.lean so that both C03 and C04 can use it): cell `(row, c+1)` has phase value `s_c·Me + Σ_i(Σ_r digit·E − dropped − β^S·head)` -/
+theorem expand_cell_value (N : Nat) (sk : List Poly) (a0 : Col) (aDft : List Col) (t : ToGGSWKey) (c : Nat)
+    (β sc Me : Ks.R N) (σ : ℕ → Ks.R N) (E : ℕ → ℕ → Ks.R N)
+    (hd : 1 ≤ t.dsize) (hN : 0 < N) (hn : t.n = N) (hM : ∀ j q, ((t.at c).toPMat.entry j q).length = N)
+    (hS : t.dnum * t.dsize ≤ t.size) (hc : c < t.rank) (hsk : c < sk.length) (hsc : sc = ι N (sk.getD c []))
+    (hP : ∀ col ∈ expandProd N aDft t c, ColWF N t.size col) (ha0 : LimbsN N a0)
+    (hPs : ColSmall ((expandProd N aDft t c).getD (c + 1) [])) (ha0s : ColSmall a0)
+    (hkey : ∀ i, i < t.rank → ∀ r, r < t.dnum →
+      Gadget.val β t.size (Ks.keyPhase N sk (t.at c).toPMat i r) = sc * σ i * β ^ (t.size - (r + 1) * t.dsize) + E i r)
+    (hrow : colValS N β t.size a0 + expandUsed N aDft t β σ = Me) :
+    ∑ l ∈ Finset.range t.size,
+        ι N (phaseRow sk ((expandAcc false N a0 aDft t c).map (fun col => limbOr0 N col l))) * β ^ (t.size - 1 - l)
+      = sc * Me + expandErr N sk aDft t c β E :=
+  Core.expand_cell_value N sk a0 aDft t c β sc Me σ E hd hN hn hM hS hc hsk hsc hP ha0 hPs ha0s hkey hrow
+
+/-- every cell of `Ks.expandRows` (executed `ggsw_expand_row` on every row) -/
+theorem ggsw_cells_value (N : Nat) (big128 : Bool) (rb rs : Nat) (col0 : List Ct) (t : ToGGSWKey) (cells : List (List Col))
+    (sk : List Poly) (β : R N) (σ : ℕ → R N) (E : ℕ → ℕ → ℕ → R N)
+    (hd : 1 ≤ t.dsize) (hN : 0 < N) (hn : t.n = N) (hS : t.dnum * t.dsize ≤ t.size) (hrank : t.rank ≤ sk.length)
+    (hM : ∀ c, c < t.rank → ∀ j q, ((t.at c).toPMat.entry j q).length = N)
+    (hkey : ∀ c, c < t.rank → ∀ i, i < t.rank → ∀ r, r < t.dnum →
+      Gadget.val β t.size (keyPhase N sk (t.at c).toPMat i r)
+        = ι N (sk.getD c []) * σ i * β ^ (t.size - (r + 1) * t.dsize) + E c i r)
+    (h : expandRows big128 N rb rs col0 t = .ok cells) :
+    cells.length = col0.length * (t.rank + 1) ∧
+      ∀ (r : Nat) (y : Ct), col0[r]? = some y → RowCellsValue N big128 rb rs t cells sk β σ E r y :=
+  Ks.ggsw_cells_value N big128 rb rs col0 t cells sk β σ E hd hN hn hS hrank hM hkey h
+
+/-- **`ggsw_keyswitch`, no `hexp`**: column 0 of row `r` is the key-switch of the operand's, every other cell's accumulator has value `s_c·(row value) + explicit gadget terms` -/
+theorem ggsw_keyswitch_cells_value (N : Nat) (big128 : Bool) (rb rs rd rds ab ads : Nat) (aCol0 : List Ct) (key : Key) (t : ToGGSWKey)
+    (cells : List (List Col)) (sk : List Poly) (β : R N) (σ : ℕ → R N) (E : ℕ → ℕ → ℕ → R N)
+    (hd : 1 ≤ t.dsize) (hN : 0 < N) (hn : t.n = N) (hS : t.dnum * t.dsize ≤ t.size) (hrank : t.rank ≤ sk.length)
+    (hM : ∀ c, c < t.rank → ∀ j q, ((t.at c).toPMat.entry j q).length = N)
+    (hkey : ∀ c, c < t.rank → ∀ i, i < t.rank → ∀ r, r < t.dnum →
+      Gadget.val β t.size (keyPhase N sk (t.at c).toPMat i r)
+        = ι N (sk.getD c []) * σ i * β ^ (t.size - (r + 1) * t.dsize) + E c i r)
+    (h : ggswKeyswitch big128 N rb rs rd rds ab ads aCol0 key t = .ok cells) :
+    cells.length = rd * (t.rank + 1) ∧
+      ∀ r, r < rd → ∃ x y, aCol0[r]? = some x ∧ keyswitch big128 rb rs key.rankOut x key = .ok y ∧
+        RowCellsValue N big128 rb rs t cells sk β σ E r y :=
+  Ks.ggsw_keyswitch_cells_value N big128 rb rs rd rds ab ads aCol0 key t cells sk β σ E hd hN hn hS hrank hM hkey h
+
+/-- **`ggsw_automorphism`, no `hexp`** -/
+theorem ggsw_automorphism_cells_value (N : Nat) (big128 : Bool) (rb rs rd rds ab ads : Nat) (aCol0 : List Ct) (key : Key) (t : ToGGSWKey)
+    (cells : List (List Col)) (sk : List Poly) (β : R N) (σ : ℕ → R N) (E : ℕ → ℕ → ℕ → R N)
+    (hd : 1 ≤ t.dsize) (hN : 0 < N) (hn : t.n = N) (hS : t.dnum * t.dsize ≤ t.size) (hrank : t.rank ≤ sk.length)
+    (hM : ∀ c, c < t.rank → ∀ j q, ((t.at c).toPMat.entry j q).length = N)
+    (hkey : ∀ c, c < t.rank → ∀ i, i < t.rank → ∀ r, r < t.dnum →
+      Gadget.val β t.size (keyPhase N sk (t.at c).toPMat i r)
+        = ι N (sk.getD c []) * σ i * β ^ (t.size - (r + 1) * t.dsize) + E c i r)
+    (h : ggswAutomorphism big128 N rb rs rd rds ab ads aCol0 key t = .ok cells) :
+    cells.length = rd * (t.rank + 1) ∧
+      ∀ r, r < rd → ∃ x y, aCol0[r]? = some x ∧ automorphism big128 rb rs key.rankOut x key = .ok y ∧
+        RowCellsValue N big128 rb rs t cells sk β σ E r y :=
+  Ks.ggsw_automorphism_cells_value N big128 rb rs rd rds ab ads aCol0 key t cells sk β σ E hd hN hn hS hrank hM hkey h
+
+/-- in-place form -/
+theorem ggsw_keyswitch_assign_cells_value (N : Nat) (big128 : Bool) (x0 : Ct) (xs : List Ct) (key : Key) (t : ToGGSWKey)
+    (cells : List (List Col)) (sk : List Poly) (β : R N) (σ : ℕ → R N) (E : ℕ → ℕ → ℕ → R N)
+    (hd : 1 ≤ t.dsize) (hN : 0 < N) (hn : t.n = N) (hS : t.dnum * t.dsize ≤ t.size) (hrank : t.rank ≤ sk.length)
+    (hM : ∀ c, c < t.rank → ∀ j q, ((t.at c).toPMat.entry j q).length = N)
+    (hkey : ∀ c, c < t.rank → ∀ i, i < t.rank → ∀ r, r < t.dnum →
+      Gadget.val β t.size (keyPhase N sk (t.at c).toPMat i r)
+        = ι N (sk.getD c []) * σ i * β ^ (t.size - (r + 1) * t.dsize) + E c i r)
+    (h : ggswKeyswitchAssign big128 N (x0 :: xs) key t = .ok cells) :
+    cells.length = (x0 :: xs).length * (t.rank + 1) ∧
+      ∀ (r : Nat) (x : Ct), (x0 :: xs)[r]? = some x → ∃ y, keyswitch big128 x.base2k x.size x.rank x key = .ok y ∧
+        RowCellsValue N big128 x0.base2k x0.size t cells sk β σ E r y :=
+  Ks.ggsw_keyswitch_assign_cells_value N big128 x0 xs key t cells sk β σ E hd hN hn hS hrank hM hkey h
+
+/-- in-place form -/
+theorem ggsw_automorphism_assign_cells_value (N : Nat) (big128 : Bool) (x0 : Ct) (xs : List Ct) (key : Key) (t : ToGGSWKey)
+    (cells : List (List Col)) (sk : List Poly) (β : R N) (σ : ℕ → R N) (E : ℕ → ℕ → ℕ → R N)
+    (hd : 1 ≤ t.dsize) (hN : 0 < N) (hn : t.n = N) (hS : t.dnum * t.dsize ≤ t.size) (hrank : t.rank ≤ sk.length)
+    (hM : ∀ c, c < t.rank → ∀ j q, ((t.at c).toPMat.entry j q).length = N)
+    (hkey : ∀ c, c < t.rank → ∀ i, i < t.rank → ∀ r, r < t.dnum →
+      Gadget.val β t.size (keyPhase N sk (t.at c).toPMat i r)
+        = ι N (sk.getD c []) * σ i * β ^ (t.size - (r + 1) * t.dsize) + E c i r)
+    (h : ggswAutomorphismAssign big128 N (x0 :: xs) key t = .ok cells) :
+    cells.length = (x0 :: xs).length * (t.rank + 1) ∧
+      ∀ (r : Nat) (x : Ct), (x0 :: xs)[r]? = some x → ∃ y, automorphism big128 x.base2k x.size x.rank x key = .ok y ∧
+        RowCellsValue N big128 x0.base2k x0.size t cells sk β σ E r y :=
+  Ks.ggsw_automorphism_assign_cells_value N big128 x0 xs key t cells sk β σ E hd hN hn hS hrank hM hkey h
+
+
+/-- closed instance (`Lemmas/ExpandExec.lean`, key `Ks.exT'` = `C04.exT`): the pre-processing of the executed row expansion -/
+example : Core.expandPre 1 4 3 (mkCt 4 1 [[[3], [1], [0]], [[2], [1], [0]]]).cols Ks.exT' = some ([[3], [1], [0]], [[[2], [1], [0]]]) := by
+  decide
+end ExpandExecSec
+
+section AutoDecryptSec
+open KsDec Hal Core Core.Ops C02L AutoMul
+variable {M : Type*} [AddCommGroup M]
+
+/-- **`glwe_automorphism_decrypts`** — END TO END (conversion, product, normalisation, then `vec_znx_automorphism(p)` — exact on the result's digits): the result decrypts under `sk` to `σ_p` of (the input's phase under `sk` + the key-switch error of `glwe_keyswitch_decrypts`), the error bound survives `σ_p` (`‖σ_p e‖_∞ ≤ ‖e‖_∞`); the key switches from `sk` to `σ_{p⁻¹}(sk)` (`hinv` = `autokey_secret_roundtrip`) -/
+theorem glwe_automorphism_decrypts (big128 : Bool) (N bout sout rout : Nat) (a : Ks.Ct) (key : Ks.Key) (sk : List Poly) (gInv : Int)
+    (EL KL : ℕ → ℕ → Poly) (Hin Hp : Int)
+    (hN : 0 < N) (hg : GalOk key.p N) (hsk : Ks.AllLen N sk) (hinv : ∀ s ∈ sk, σ key.p (σ gInv s) = s)
+    (ha : GWF N a) (hrank : a.rank = key.rankIn) (hrout : rout = key.rankOut) (hc0 : 0 < key.mat.colsOut)
+    (hD : 1 ≤ key.dsize) (hM : ∀ j q, (key.mat.entry j q).length = N) (hS : key.mat.rows * key.dsize ≤ key.mat.size)
+    (hbi1 : 1 ≤ a.base2k) (hbi : a.base2k ≤ 62) (hbk1 : 1 ≤ key.base2k) (hbk : key.base2k ≤ 62) (hbo1 : 1 ≤ bout) (hbo : bout ≤ 62)
+    (hIn0 : 0 ≤ Hin) (hIn : Hin + 8 ≤ 2 ^ 62) (hInB : ∀ c ∈ a.cols, ∀ l ∈ c, ∀ x ∈ l, |x| ≤ Hin)
+    (hHp0 : 0 ≤ Hp) (hAcc : Hp + (Hin + 2 ^ key.base2k) + 8 ≤ 2 ^ (bitsOf big128 - 2))
+    (hprod : ∀ aConv, Ks.convIn a key = .ok aConv → ∀ i, i < rout + 1 → ∀ l ∈ (prodOf rout aConv key).act i, ∀ x ∈ l, |x| ≤ Hp)
+    (hs : key.mat.colsIn ≤ sk.length)
+    (hEL : ∀ i r, (EL i r).length = N) (hKL : ∀ i r, (KL i r).length = N)
+    (hkey : ∀ i, i < key.mat.colsIn → ∀ r, r < key.mat.rows →
+      Gadget.val (Ks.radix N key.base2k) key.mat.size (Ks.keyPhase N (sk.map (σ gInv)) key.mat i r) =
+        Ks.ι N (sk.getD i []) * Ks.radix N key.base2k ^ (key.mat.size - (r + 1) * key.dsize) + Ks.ι N (EL i r)
+          + Ks.radix N key.base2k ^ key.mat.size * Ks.ι N (KL i r))
+    (hcov1 : convSize a key ≤ key.mat.size) (hcov2 : convSize a key ≤ key.mat.rows * key.dsize) :
+    ∃ res aConv, Ks.automorphism big128 bout sout rout a key = .ok res ∧ Ks.convIn a key = .ok aConv ∧
+      GWF N res ∧ res.base2k = bout ∧ res.size = sout ∧ res.rank = rout ∧
+      ∃ (E1 E3 : Poly) (Q : Ks.R N), E1.length = N ∧ E3.length = N ∧
+        normInf E1 ≤ (1 + snorm (min a.rank sk.length) sk) * C02.normTol (key.base2k * convSize a key) (a.base2k * a.size) ∧
+        normInf E3 ≤ (1 + snorm (min rout (sk.map (σ gInv)).length) (sk.map (σ gInv))) *
+          C02.normTol (bout * sout) (key.base2k * key.mat.size) ∧
+        (2 : Ks.R N) ^ (a.base2k * a.size + key.base2k * key.mat.size) * Ks.ι N (valP bout N (phase sk res))
+          = (2 : Ks.R N) ^ (bout * sout + key.base2k * key.mat.size) * Ks.ι N (σ key.p (valP a.base2k N (phase sk a)))
+            + Ks.ι N (σ key.p (ksErr (2 ^ (bout * sout + key.base2k * (key.mat.size - convSize a key))) (2 ^ (a.base2k * a.size + bout * sout))
+                (2 ^ (a.base2k * a.size)) E1 (Ks.errL N key.base2k (aDftOf aConv) key EL)
+                (Ks.dropL N key.base2k (sk.map (σ gInv)) (aDftOf aConv) key) E3))
+            + (2 : Ks.R N) ^ (a.base2k * a.size + bout * sout + key.base2k * key.mat.size) * Q ∧
+        normInf (σ key.p (ksErr (2 ^ (bout * sout + key.base2k * (key.mat.size - convSize a key))) (2 ^ (a.base2k * a.size + bout * sout))
+                (2 ^ (a.base2k * a.size)) E1 (Ks.errL N key.base2k (aDftOf aConv) key EL)
+                (Ks.dropL N key.base2k (sk.map (σ gInv)) (aDftOf aConv) key) E3))
+          ≤ 2 ^ (bout * sout + key.base2k * (key.mat.size - convSize a key)) *
+              ((1 + snorm (min a.rank sk.length) sk) * C02.normTol (key.base2k * convSize a key) (a.base2k * a.size))
+            + 2 ^ (a.base2k * a.size + bout * sout) * gadgetBound N key.base2k (aDftOf aConv) key EL
+            + 2 ^ (a.base2k * a.size + bout * sout) * dropBound N key.base2k (sk.map (σ gInv)) (aDftOf aConv) key
+            + 2 ^ (a.base2k * a.size) *
+              ((1 + snorm (min rout (sk.map (σ gInv)).length) (sk.map (σ gInv))) *
+                C02.normTol (bout * sout) (key.base2k * key.mat.size)) :=
+  KsDec.glwe_automorphism_decrypts big128 N bout sout rout a key sk gInv EL KL Hin Hp hN hg hsk hinv ha hrank hrout hc0 hD hM hS hbi1 hbi hbk1 hbk hbo1 hbo hIn0 hIn hInB hHp0 hAcc hprod hs hEL hKL hkey hcov1 hcov2
+
+/-- in-place form -/
+theorem glwe_automorphism_assign_decrypts (big128 : Bool) (N : Nat) (a : Ks.Ct) (key : Ks.Key) (sk : List Poly) (gInv : Int)
+    (EL KL : ℕ → ℕ → Poly) (Hin Hp : Int)
+    (hN : 0 < N) (hg : GalOk key.p N) (hsk : Ks.AllLen N sk) (hinv : ∀ s ∈ sk, σ key.p (σ gInv s) = s)
+    (ha : GWF N a) (hrank : a.rank = key.rankIn) (hrout : a.rank = key.rankOut) (hc0 : 0 < key.mat.colsOut)
+    (hD : 1 ≤ key.dsize) (hM : ∀ j q, (key.mat.entry j q).length = N) (hS : key.mat.rows * key.dsize ≤ key.mat.size)
+    (hbi1 : 1 ≤ a.base2k) (hbi : a.base2k ≤ 62) (hbk1 : 1 ≤ key.base2k) (hbk : key.base2k ≤ 62)
+    (hIn0 : 0 ≤ Hin) (hIn : Hin + 8 ≤ 2 ^ 62) (hInB : ∀ c ∈ a.cols, ∀ l ∈ c, ∀ x ∈ l, |x| ≤ Hin)
+    (hHp0 : 0 ≤ Hp) (hAcc : Hp + (Hin + 2 ^ key.base2k) + 8 ≤ 2 ^ (bitsOf big128 - 2))
+    (hprod : ∀ aConv, Ks.convIn a key = .ok aConv → ∀ i, i < a.rank + 1 → ∀ l ∈ (prodOf a.rank aConv key).act i, ∀ x ∈ l, |x| ≤ Hp)
+    (hs : key.mat.colsIn ≤ sk.length)
+    (hEL : ∀ i r, (EL i r).length = N) (hKL : ∀ i r, (KL i r).length = N)
+    (hkey : ∀ i, i < key.mat.colsIn → ∀ r, r < key.mat.rows →
+      Gadget.val (Ks.radix N key.base2k) key.mat.size (Ks.keyPhase N (sk.map (σ gInv)) key.mat i r) =
+        Ks.ι N (sk.getD i []) * Ks.radix N key.base2k ^ (key.mat.size - (r + 1) * key.dsize) + Ks.ι N (EL i r)
+          + Ks.radix N key.base2k ^ key.mat.size * Ks.ι N (KL i r))
+    (hcov1 : convSize a key ≤ key.mat.size) (hcov2 : convSize a key ≤ key.mat.rows * key.dsize) :
+    ∃ res aConv, Ks.automorphism big128 a.base2k a.size a.rank a key = .ok res ∧ Ks.convIn a key = .ok aConv ∧
+      GWF N res ∧ res.base2k = a.base2k ∧ res.size = a.size ∧ res.rank = a.rank ∧
+      ∃ (E1 E3 : Poly) (Q : Ks.R N), E1.length = N ∧ E3.length = N ∧
+        normInf E1 ≤ (1 + snorm (min a.rank sk.length) sk) * C02.normTol (key.base2k * convSize a key) (a.base2k * a.size) ∧
+        normInf E3 ≤ (1 + snorm (min a.rank (sk.map (σ gInv)).length) (sk.map (σ gInv))) *
+          C02.normTol (a.base2k * a.size) (key.base2k * key.mat.size) ∧
+        (2 : Ks.R N) ^ (a.base2k * a.size + key.base2k * key.mat.size) * Ks.ι N (valP a.base2k N (phase sk res))
+          = (2 : Ks.R N) ^ (a.base2k * a.size + key.base2k * key.mat.size) * Ks.ι N (σ key.p (valP a.base2k N (phase sk a)))
+            + Ks.ι N (σ key.p (ksErr (2 ^ (a.base2k * a.size + key.base2k * (key.mat.size - convSize a key))) (2 ^ (a.base2k * a.size + a.base2k * a.size))
+                (2 ^ (a.base2k * a.size)) E1 (Ks.errL N key.base2k (aDftOf aConv) key EL)
+                (Ks.dropL N key.base2k (sk.map (σ gInv)) (aDftOf aConv) key) E3))
+            + (2 : Ks.R N) ^ (a.base2k * a.size + a.base2k * a.size + key.base2k * key.mat.size) * Q ∧
+        normInf (σ key.p (ksErr (2 ^ (a.base2k * a.size + key.base2k * (key.mat.size - convSize a key))) (2 ^ (a.base2k * a.size + a.base2k * a.size))
+                (2 ^ (a.base2k * a.size)) E1 (Ks.errL N key.base2k (aDftOf aConv) key EL)
+                (Ks.dropL N key.base2k (sk.map (σ gInv)) (aDftOf aConv) key) E3))
+          ≤ 2 ^ (a.base2k * a.size + key.base2k * (key.mat.size - convSize a key)) *
+              ((1 + snorm (min a.rank sk.length) sk) * C02.normTol (key.base2k * convSize a key) (a.base2k * a.size))
+            + 2 ^ (a.base2k * a.size + a.base2k * a.size) * gadgetBound N key.base2k (aDftOf aConv) key EL
+            + 2 ^ (a.base2k * a.size + a.base2k * a.size) * dropBound N key.base2k (sk.map (σ gInv)) (aDftOf aConv) key
+            + 2 ^ (a.base2k * a.size) *
+              ((1 + snorm (min a.rank (sk.map (σ gInv)).length) (sk.map (σ gInv))) *
+                C02.normTol (a.base2k * a.size) (key.base2k * key.mat.size)) :=
+  KsDec.glwe_automorphism_assign_decrypts big128 N a key sk gInv EL KL Hin Hp hN hg hsk hinv ha hrank hrout hc0 hD hM hS hbi1 hbi hbk1 hbk hIn0 hIn hInB hHp0 hAcc hprod hs hEL hKL hkey hcov1 hcov2
+
+/-- **`glwe_automorphism_{add,sub,sub_negate}`** in one theorem (signs `sgA f`, `sgB f`): the result decrypts to `sgA·σ_p(φ + err_ks) + sgB·φ` + normalisation error, every shape, both accumulators, fresh (zeroed) `res_dft` -/
+theorem glwe_automorphism_fused_decrypts (f : Ks.Fused) (big128 : Bool) (N bout sout rout : Nat) (a : Ks.Ct) (key : Ks.Key)
+    (sk : List Poly) (gInv : Int) (EL KL : ℕ → ℕ → Poly) (Hin Hp : Int)
+    (hN : 0 < N) (hg : GalOk key.p N) (hsk : Ks.AllLen N sk) (hinv : ∀ s ∈ sk, σ key.p (σ gInv s) = s)
+    (ha : GWF N a) (hrank : a.rank = key.rankIn) (hrout : rout = key.rankOut) (hra : a.rank = rout) (hc0 : 0 < key.mat.colsOut)
+    (hD : 1 ≤ key.dsize) (hM : ∀ j q, (key.mat.entry j q).length = N) (hS : key.mat.rows * key.dsize ≤ key.mat.size)
+    (hbi1 : 1 ≤ a.base2k) (hbi : a.base2k ≤ 62) (hbk1 : 1 ≤ key.base2k) (hbk : key.base2k ≤ 62) (hbo1 : 1 ≤ bout) (hbo : bout ≤ 62)
+    (hIn0 : 0 ≤ Hin) (hIn : Hin + 8 ≤ 2 ^ 62) (hInB : ∀ c ∈ a.cols, ∀ l ∈ c, ∀ x ∈ l, |x| ≤ Hin)
+    (hHp0 : 0 ≤ Hp) (hAcc : Hp + 2 * (Hin + 2 ^ key.base2k) + 8 ≤ 2 ^ (bitsOf big128 - 2))
+    (hprod : ∀ aConv, Ks.convIn a key = .ok aConv → ∀ i, i < rout + 1 → ∀ l ∈ (prodOf rout aConv key).act i, ∀ x ∈ l, |x| ≤ Hp)
+    (hs : key.mat.colsIn ≤ sk.length)
+    (hEL : ∀ i r, (EL i r).length = N) (hKL : ∀ i r, (KL i r).length = N)
+    (hkey : ∀ i, i < key.mat.colsIn → ∀ r, r < key.mat.rows →
+      Gadget.val (Ks.radix N key.base2k) key.mat.size (Ks.keyPhase N (sk.map (σ gInv)) key.mat i r) =
+        Ks.ι N (sk.getD i []) * Ks.radix N key.base2k ^ (key.mat.size - (r + 1) * key.dsize) + Ks.ι N (EL i r)
+          + Ks.radix N key.base2k ^ key.mat.size * Ks.ι N (KL i r))
+    (hcov1 : convSize a key ≤ key.mat.size) (hcov2 : convSize a key ≤ key.mat.rows * key.dsize) :
+    ∃ res aConv, Ks.automorphismFused f big128 (Ks.zeroBuf N (rout + 1) key.size) bout sout rout a key = .ok res ∧
+      Ks.convIn a key = .ok aConv ∧ GWF N res ∧ res.base2k = bout ∧ res.size = sout ∧ res.rank = rout ∧
+      ∃ (E1 E3 : Poly) (Q : Ks.R N), E1.length = N ∧ E3.length = N ∧
+        normInf E1 ≤ (1 + snorm (min a.rank sk.length) sk) * C02.normTol (key.base2k * convSize a key) (a.base2k * a.size) ∧
+        normInf E3 ≤ (1 + snorm (min rout sk.length) sk) * C02.normTol (bout * sout) (key.base2k * key.mat.size) ∧
+        (2 : Ks.R N) ^ (a.base2k * a.size + key.base2k * key.mat.size) * Ks.ι N (valP bout N (phase sk res))
+          = (sgA f : Ks.R N) *
+              ((2 : Ks.R N) ^ (bout * sout + key.base2k * key.mat.size) * Ks.ι N (σ key.p (valP a.base2k N (phase sk a)))
+                + Ks.ι N (σ key.p (ksErr (2 ^ (bout * sout + key.base2k * (key.mat.size - convSize a key)))
+                    (2 ^ (a.base2k * a.size + bout * sout)) 0 E1 (Ks.errL N key.base2k (aDftOf aConv) key EL)
+                    (Ks.dropL N key.base2k (sk.map (σ gInv)) (aDftOf aConv) key) (zeroP N))))
+            + (sgB f : Ks.R N) *
+              ((2 : Ks.R N) ^ (bout * sout + key.base2k * key.mat.size) * Ks.ι N (valP a.base2k N (phase sk a))
+                + Ks.ι N (polyScale (2 ^ (bout * sout + key.base2k * (key.mat.size - convSize a key))) E1))
+            + Ks.ι N (polyScale (2 ^ (a.base2k * a.size)) E3)
+            + (2 : Ks.R N) ^ (a.base2k * a.size + bout * sout + key.base2k * key.mat.size) * Q ∧
+        normInf (σ key.p (ksErr (2 ^ (bout * sout + key.base2k * (key.mat.size - convSize a key)))
+                    (2 ^ (a.base2k * a.size + bout * sout)) 0 E1 (Ks.errL N key.base2k (aDftOf aConv) key EL)
+                    (Ks.dropL N key.base2k (sk.map (σ gInv)) (aDftOf aConv) key) (zeroP N)))
+          ≤ 2 ^ (bout * sout + key.base2k * (key.mat.size - convSize a key)) *
+              ((1 + snorm (min a.rank sk.length) sk) * C02.normTol (key.base2k * convSize a key) (a.base2k * a.size))
+            + 2 ^ (a.base2k * a.size + bout * sout) * gadgetBound N key.base2k (aDftOf aConv) key EL
+            + 2 ^ (a.base2k * a.size + bout * sout) * dropBound N key.base2k (sk.map (σ gInv)) (aDftOf aConv) key :=
+  KsDec.glwe_automorphism_fused_decrypts f big128 N bout sout rout a key sk gInv EL KL Hin Hp hN hg hsk hinv ha hrank hrout hra hc0 hD hM hS hbi1 hbi hbk1 hbk hbo1 hbo hIn0 hIn hInB hHp0 hAcc hprod hs hEL hKL hkey hcov1 hcov2
+
+/-- `σ_p(KS(a)) + a` -/
+theorem glwe_automorphism_add_decrypts (big128 : Bool) (N bout sout rout : Nat) (a : Ks.Ct) (key : Ks.Key)
+    (sk : List Poly) (gInv : Int) (EL KL : ℕ → ℕ → Poly) (Hin Hp : Int)
+    (hN : 0 < N) (hg : GalOk key.p N) (hsk : Ks.AllLen N sk) (hinv : ∀ s ∈ sk, σ key.p (σ gInv s) = s)
+    (ha : GWF N a) (hrank : a.rank = key.rankIn) (hrout : rout = key.rankOut) (hra : a.rank = rout) (hc0 : 0 < key.mat.colsOut)
+    (hD : 1 ≤ key.dsize) (hM : ∀ j q, (key.mat.entry j q).length = N) (hS : key.mat.rows * key.dsize ≤ key.mat.size)
+    (hbi1 : 1 ≤ a.base2k) (hbi : a.base2k ≤ 62) (hbk1 : 1 ≤ key.base2k) (hbk : key.base2k ≤ 62) (hbo1 : 1 ≤ bout) (hbo : bout ≤ 62)
+    (hIn0 : 0 ≤ Hin) (hIn : Hin + 8 ≤ 2 ^ 62) (hInB : ∀ c ∈ a.cols, ∀ l ∈ c, ∀ x ∈ l, |x| ≤ Hin)
+    (hHp0 : 0 ≤ Hp) (hAcc : Hp + 2 * (Hin + 2 ^ key.base2k) + 8 ≤ 2 ^ (bitsOf big128 - 2))
+    (hprod : ∀ aConv, Ks.convIn a key = .ok aConv → ∀ i, i < rout + 1 → ∀ l ∈ (prodOf rout aConv key).act i, ∀ x ∈ l, |x| ≤ Hp)
+    (hs : key.mat.colsIn ≤ sk.length)
+    (hEL : ∀ i r, (EL i r).length = N) (hKL : ∀ i r, (KL i r).length = N)
+    (hkey : ∀ i, i < key.mat.colsIn → ∀ r, r < key.mat.rows →
+      Gadget.val (Ks.radix N key.base2k) key.mat.size (Ks.keyPhase N (sk.map (σ gInv)) key.mat i r) =
+        Ks.ι N (sk.getD i []) * Ks.radix N key.base2k ^ (key.mat.size - (r + 1) * key.dsize) + Ks.ι N (EL i r)
+          + Ks.radix N key.base2k ^ key.mat.size * Ks.ι N (KL i r))
+    (hcov1 : convSize a key ≤ key.mat.size) (hcov2 : convSize a key ≤ key.mat.rows * key.dsize) :
+    ∃ res aConv, Ks.automorphismFused .add big128 (Ks.zeroBuf N (rout + 1) key.size) bout sout rout a key = .ok res ∧
+      Ks.convIn a key = .ok aConv ∧ GWF N res ∧ res.base2k = bout ∧ res.size = sout ∧ res.rank = rout ∧
+      ∃ (E1 E3 : Poly) (Q : Ks.R N), E1.length = N ∧ E3.length = N ∧
+        normInf E1 ≤ (1 + snorm (min a.rank sk.length) sk) * C02.normTol (key.base2k * convSize a key) (a.base2k * a.size) ∧
+        normInf E3 ≤ (1 + snorm (min rout sk.length) sk) * C02.normTol (bout * sout) (key.base2k * key.mat.size) ∧
+        (2 : Ks.R N) ^ (a.base2k * a.size + key.base2k * key.mat.size) * Ks.ι N (valP bout N (phase sk res))
+          = ((sgA .add : ℤ) : Ks.R N) *
+              ((2 : Ks.R N) ^ (bout * sout + key.base2k * key.mat.size) * Ks.ι N (σ key.p (valP a.base2k N (phase sk a)))
+                + Ks.ι N (σ key.p (ksErr (2 ^ (bout * sout + key.base2k * (key.mat.size - convSize a key)))
+                    (2 ^ (a.base2k * a.size + bout * sout)) 0 E1 (Ks.errL N key.base2k (aDftOf aConv) key EL)
+                    (Ks.dropL N key.base2k (sk.map (σ gInv)) (aDftOf aConv) key) (zeroP N))))
+            + ((sgB .add : ℤ) : Ks.R N) *
+              ((2 : Ks.R N) ^ (bout * sout + key.base2k * key.mat.size) * Ks.ι N (valP a.base2k N (phase sk a))
+                + Ks.ι N (polyScale (2 ^ (bout * sout + key.base2k * (key.mat.size - convSize a key))) E1))
+            + Ks.ι N (polyScale (2 ^ (a.base2k * a.size)) E3)
+            + (2 : Ks.R N) ^ (a.base2k * a.size + bout * sout + key.base2k * key.mat.size) * Q ∧
+        normInf (σ key.p (ksErr (2 ^ (bout * sout + key.base2k * (key.mat.size - convSize a key)))
+                    (2 ^ (a.base2k * a.size + bout * sout)) 0 E1 (Ks.errL N key.base2k (aDftOf aConv) key EL)
+                    (Ks.dropL N key.base2k (sk.map (σ gInv)) (aDftOf aConv) key) (zeroP N)))
+          ≤ 2 ^ (bout * sout + key.base2k * (key.mat.size - convSize a key)) *
+              ((1 + snorm (min a.rank sk.length) sk) * C02.normTol (key.base2k * convSize a key) (a.base2k * a.size))
+            + 2 ^ (a.base2k * a.size + bout * sout) * gadgetBound N key.base2k (aDftOf aConv) key EL
+            + 2 ^ (a.base2k * a.size + bout * sout) * dropBound N key.base2k (sk.map (σ gInv)) (aDftOf aConv) key :=
+  KsDec.glwe_automorphism_add_decrypts big128 N bout sout rout a key sk gInv EL KL Hin Hp hN hg hsk hinv ha hrank hrout hra hc0 hD hM hS hbi1 hbi hbk1 hbk hbo1 hbo hIn0 hIn hInB hHp0 hAcc hprod hs hEL hKL hkey hcov1 hcov2
+
+/-- `σ_p(KS(a)) − a` -/
+theorem glwe_automorphism_sub_decrypts (big128 : Bool) (N bout sout rout : Nat) (a : Ks.Ct) (key : Ks.Key)
+    (sk : List Poly) (gInv : Int) (EL KL : ℕ → ℕ → Poly) (Hin Hp : Int)
+    (hN : 0 < N) (hg : GalOk key.p N) (hsk : Ks.AllLen N sk) (hinv : ∀ s ∈ sk, σ key.p (σ gInv s) = s)
+    (ha : GWF N a) (hrank : a.rank = key.rankIn) (hrout : rout = key.rankOut) (hra : a.rank = rout) (hc0 : 0 < key.mat.colsOut)
+    (hD : 1 ≤ key.dsize) (hM : ∀ j q, (key.mat.entry j q).length = N) (hS : key.mat.rows * key.dsize ≤ key.mat.size)
+    (hbi1 : 1 ≤ a.base2k) (hbi : a.base2k ≤ 62) (hbk1 : 1 ≤ key.base2k) (hbk : key.base2k ≤ 62) (hbo1 : 1 ≤ bout) (hbo : bout ≤ 62)
+    (hIn0 : 0 ≤ Hin) (hIn : Hin + 8 ≤ 2 ^ 62) (hInB : ∀ c ∈ a.cols, ∀ l ∈ c, ∀ x ∈ l, |x| ≤ Hin)
+    (hHp0 : 0 ≤ Hp) (hAcc : Hp + 2 * (Hin + 2 ^ key.base2k) + 8 ≤ 2 ^ (bitsOf big128 - 2))
+    (hprod : ∀ aConv, Ks.convIn a key = .ok aConv → ∀ i, i < rout + 1 → ∀ l ∈ (prodOf rout aConv key).act i, ∀ x ∈ l, |x| ≤ Hp)
+    (hs : key.mat.colsIn ≤ sk.length)
+    (hEL : ∀ i r, (EL i r).length = N) (hKL : ∀ i r, (KL i r).length = N)
+    (hkey : ∀ i, i < key.mat.colsIn → ∀ r, r < key.mat.rows →
+      Gadget.val (Ks.radix N key.base2k) key.mat.size (Ks.keyPhase N (sk.map (σ gInv)) key.mat i r) =
+        Ks.ι N (sk.getD i []) * Ks.radix N key.base2k ^ (key.mat.size - (r + 1) * key.dsize) + Ks.ι N (EL i r)
+          + Ks.radix N key.base2k ^ key.mat.size * Ks.ι N (KL i r))
+    (hcov1 : convSize a key ≤ key.mat.size) (hcov2 : convSize a key ≤ key.mat.rows * key.dsize) :
+    ∃ res aConv, Ks.automorphismFused .sub big128 (Ks.zeroBuf N (rout + 1) key.size) bout sout rout a key = .ok res ∧
+      Ks.convIn a key = .ok aConv ∧ GWF N res ∧ res.base2k = bout ∧ res.size = sout ∧ res.rank = rout ∧
+      ∃ (E1 E3 : Poly) (Q : Ks.R N), E1.length = N ∧ E3.length = N ∧
+        normInf E1 ≤ (1 + snorm (min a.rank sk.length) sk) * C02.normTol (key.base2k * convSize a key) (a.base2k * a.size) ∧
+        normInf E3 ≤ (1 + snorm (min rout sk.length) sk) * C02.normTol (bout * sout) (key.base2k * key.mat.size) ∧
+        (2 : Ks.R N) ^ (a.base2k * a.size + key.base2k * key.mat.size) * Ks.ι N (valP bout N (phase sk res))
+          = ((sgA .sub : ℤ) : Ks.R N) *
+              ((2 : Ks.R N) ^ (bout * sout + key.base2k * key.mat.size) * Ks.ι N (σ key.p (valP a.base2k N (phase sk a)))
+                + Ks.ι N (σ key.p (ksErr (2 ^ (bout * sout + key.base2k * (key.mat.size - convSize a key)))
+                    (2 ^ (a.base2k * a.size + bout * sout)) 0 E1 (Ks.errL N key.base2k (aDftOf aConv) key EL)
+                    (Ks.dropL N key.base2k (sk.map (σ gInv)) (aDftOf aConv) key) (zeroP N))))
+            + ((sgB .sub : ℤ) : Ks.R N) *
+              ((2 : Ks.R N) ^ (bout * sout + key.base2k * key.mat.size) * Ks.ι N (valP a.base2k N (phase sk a))
+                + Ks.ι N (polyScale (2 ^ (bout * sout + key.base2k * (key.mat.size - convSize a key))) E1))
+            + Ks.ι N (polyScale (2 ^ (a.base2k * a.size)) E3)
+            + (2 : Ks.R N) ^ (a.base2k * a.size + bout * sout + key.base2k * key.mat.size) * Q ∧
+        normInf (σ key.p (ksErr (2 ^ (bout * sout + key.base2k * (key.mat.size - convSize a key)))
+                    (2 ^ (a.base2k * a.size + bout * sout)) 0 E1 (Ks.errL N key.base2k (aDftOf aConv) key EL)
+                    (Ks.dropL N key.base2k (sk.map (σ gInv)) (aDftOf aConv) key) (zeroP N)))
+          ≤ 2 ^ (bout * sout + key.base2k * (key.mat.size - convSize a key)) *
+              ((1 + snorm (min a.rank sk.length) sk) * C02.normTol (key.base2k * convSize a key) (a.base2k * a.size))
+            + 2 ^ (a.base2k * a.size + bout * sout) * gadgetBound N key.base2k (aDftOf aConv) key EL
+            + 2 ^ (a.base2k * a.size + bout * sout) * dropBound N key.base2k (sk.map (σ gInv)) (aDftOf aConv) key :=
+  KsDec.glwe_automorphism_sub_decrypts big128 N bout sout rout a key sk gInv EL KL Hin Hp hN hg hsk hinv ha hrank hrout hra hc0 hD hM hS hbi1 hbi hbk1 hbk hbo1 hbo hIn0 hIn hInB hHp0 hAcc hprod hs hEL hKL hkey hcov1 hcov2
+
+/-- `a − σ_p(KS(a))` -/
+theorem glwe_automorphism_sub_negate_decrypts (big128 : Bool) (N bout sout rout : Nat) (a : Ks.Ct) (key : Ks.Key)
+    (sk : List Poly) (gInv : Int) (EL KL : ℕ → ℕ → Poly) (Hin Hp : Int)
+    (hN : 0 < N) (hg : GalOk key.p N) (hsk : Ks.AllLen N sk) (hinv : ∀ s ∈ sk, σ key.p (σ gInv s) = s)
+    (ha : GWF N a) (hrank : a.rank = key.rankIn) (hrout : rout = key.rankOut) (hra : a.rank = rout) (hc0 : 0 < key.mat.colsOut)
+    (hD : 1 ≤ key.dsize) (hM : ∀ j q, (key.mat.entry j q).length = N) (hS : key.mat.rows * key.dsize ≤ key.mat.size)
+    (hbi1 : 1 ≤ a.base2k) (hbi : a.base2k ≤ 62) (hbk1 : 1 ≤ key.base2k) (hbk : key.base2k ≤ 62) (hbo1 : 1 ≤ bout) (hbo : bout ≤ 62)
+    (hIn0 : 0 ≤ Hin) (hIn : Hin + 8 ≤ 2 ^ 62) (hInB : ∀ c ∈ a.cols, ∀ l ∈ c, ∀ x ∈ l, |x| ≤ Hin)
+    (hHp0 : 0 ≤ Hp) (hAcc : Hp + 2 * (Hin + 2 ^ key.base2k) + 8 ≤ 2 ^ (bitsOf big128 - 2))
+    (hprod : ∀ aConv, Ks.convIn a key = .ok aConv → ∀ i, i < rout + 1 → ∀ l ∈ (prodOf rout aConv key).act i, ∀ x ∈ l, |x| ≤ Hp)
+    (hs : key.mat.colsIn ≤ sk.length)
+    (hEL : ∀ i r, (EL i r).length = N) (hKL : ∀ i r, (KL i r).length = N)
+    (hkey : ∀ i, i < key.mat.colsIn → ∀ r, r < key.mat.rows →
+      Gadget.val (Ks.radix N key.base2k) key.mat.size (Ks.keyPhase N (sk.map (σ gInv)) key.mat i r) =
+        Ks.ι N (sk.getD i []) * Ks.radix N key.base2k ^ (key.mat.size - (r + 1) * key.dsize) + Ks.ι N (EL i r)
+          + Ks.radix N key.base2k ^ key.mat.size * Ks.ι N (KL i r))
+    (hcov1 : convSize a key ≤ key.mat.size) (hcov2 : convSize a key ≤ key.mat.rows * key.dsize) :
+    ∃ res aConv, Ks.automorphismFused .subNegate big128 (Ks.zeroBuf N (rout + 1) key.size) bout sout rout a key = .ok res ∧
+      Ks.convIn a key = .ok aConv ∧ GWF N res ∧ res.base2k = bout ∧ res.size = sout ∧ res.rank = rout ∧
+      ∃ (E1 E3 : Poly) (Q : Ks.R N), E1.length = N ∧ E3.length = N ∧
+        normInf E1 ≤ (1 + snorm (min a.rank sk.length) sk) * C02.normTol (key.base2k * convSize a key) (a.base2k * a.size) ∧
+        normInf E3 ≤ (1 + snorm (min rout sk.length) sk) * C02.normTol (bout * sout) (key.base2k * key.mat.size) ∧
+        (2 : Ks.R N) ^ (a.base2k * a.size + key.base2k * key.mat.size) * Ks.ι N (valP bout N (phase sk res))
+          = ((sgA .subNegate : ℤ) : Ks.R N) *
+              ((2 : Ks.R N) ^ (bout * sout + key.base2k * key.mat.size) * Ks.ι N (σ key.p (valP a.base2k N (phase sk a)))
+                + Ks.ι N (σ key.p (ksErr (2 ^ (bout * sout + key.base2k * (key.mat.size - convSize a key)))
+                    (2 ^ (a.base2k * a.size + bout * sout)) 0 E1 (Ks.errL N key.base2k (aDftOf aConv) key EL)
+                    (Ks.dropL N key.base2k (sk.map (σ gInv)) (aDftOf aConv) key) (zeroP N))))
+            + ((sgB .subNegate : ℤ) : Ks.R N) *
+              ((2 : Ks.R N) ^ (bout * sout + key.base2k * key.mat.size) * Ks.ι N (valP a.base2k N (phase sk a))
+                + Ks.ι N (polyScale (2 ^ (bout * sout + key.base2k * (key.mat.size - convSize a key))) E1))
+            + Ks.ι N (polyScale (2 ^ (a.base2k * a.size)) E3)
+            + (2 : Ks.R N) ^ (a.base2k * a.size + bout * sout + key.base2k * key.mat.size) * Q ∧
+        normInf (σ key.p (ksErr (2 ^ (bout * sout + key.base2k * (key.mat.size - convSize a key)))
+                    (2 ^ (a.base2k * a.size + bout * sout)) 0 E1 (Ks.errL N key.base2k (aDftOf aConv) key EL)
+                    (Ks.dropL N key.base2k (sk.map (σ gInv)) (aDftOf aConv) key) (zeroP N)))
+          ≤ 2 ^ (bout * sout + key.base2k * (key.mat.size - convSize a key)) *
+              ((1 + snorm (min a.rank sk.length) sk) * C02.normTol (key.base2k * convSize a key) (a.base2k * a.size))
+            + 2 ^ (a.base2k * a.size + bout * sout) * gadgetBound N key.base2k (aDftOf aConv) key EL
+            + 2 ^ (a.base2k * a.size + bout * sout) * dropBound N key.base2k (sk.map (σ gInv)) (aDftOf aConv) key :=
+  KsDec.glwe_automorphism_sub_negate_decrypts big128 N bout sout rout a key sk gInv EL KL Hin Hp hN hg hsk hinv ha hrank hrout hra hc0 hD hM hS hbi1 hbi hbk1 hbk hbo1 hbo hIn0 hIn hInB hHp0 hAcc hprod hs hEL hKL hkey hcov1 hcov2
+
+/-- the in-place forms -/
+theorem glwe_automorphism_fused_assign_decrypts (f : Ks.Fused) (big128 : Bool) (N : Nat) (a : Ks.Ct) (key : Ks.Key)
+    (sk : List Poly) (gInv : Int) (EL KL : ℕ → ℕ → Poly) (Hin Hp : Int)
+    (hN : 0 < N) (hg : GalOk key.p N) (hsk : Ks.AllLen N sk) (hinv : ∀ s ∈ sk, σ key.p (σ gInv s) = s)
+    (ha : GWF N a) (hrank : a.rank = key.rankIn) (hrout : a.rank = key.rankOut) (hc0 : 0 < key.mat.colsOut)
+    (hD : 1 ≤ key.dsize) (hM : ∀ j q, (key.mat.entry j q).length = N) (hS : key.mat.rows * key.dsize ≤ key.mat.size)
+    (hbi1 : 1 ≤ a.base2k) (hbi : a.base2k ≤ 62) (hbk1 : 1 ≤ key.base2k) (hbk : key.base2k ≤ 62)
+    (hIn0 : 0 ≤ Hin) (hIn : Hin + 8 ≤ 2 ^ 62) (hInB : ∀ c ∈ a.cols, ∀ l ∈ c, ∀ x ∈ l, |x| ≤ Hin)
+    (hHp0 : 0 ≤ Hp) (hAcc : Hp + 2 * (Hin + 2 ^ key.base2k) + 8 ≤ 2 ^ (bitsOf big128 - 2))
+    (hprod : ∀ aConv, Ks.convIn a key = .ok aConv → ∀ i, i < a.rank + 1 → ∀ l ∈ (prodOf a.rank aConv key).act i, ∀ x ∈ l, |x| ≤ Hp)
+    (hs : key.mat.colsIn ≤ sk.length)
+    (hEL : ∀ i r, (EL i r).length = N) (hKL : ∀ i r, (KL i r).length = N)
+    (hkey : ∀ i, i < key.mat.colsIn → ∀ r, r < key.mat.rows →
+      Gadget.val (Ks.radix N key.base2k) key.mat.size (Ks.keyPhase N (sk.map (σ gInv)) key.mat i r) =
+        Ks.ι N (sk.getD i []) * Ks.radix N key.base2k ^ (key.mat.size - (r + 1) * key.dsize) + Ks.ι N (EL i r)
+          + Ks.radix N key.base2k ^ key.mat.size * Ks.ι N (KL i r))
+    (hcov1 : convSize a key ≤ key.mat.size) (hcov2 : convSize a key ≤ key.mat.rows * key.dsize) :
+    ∃ res aConv, Ks.automorphismFused f big128 (Ks.zeroBuf N (a.rank + 1) key.size) a.base2k a.size a.rank a key = .ok res ∧
+      Ks.convIn a key = .ok aConv ∧ GWF N res ∧ res.base2k = a.base2k ∧ res.size = a.size ∧ res.rank = a.rank ∧
+      ∃ (E1 E3 : Poly) (Q : Ks.R N), E1.length = N ∧ E3.length = N ∧
+        normInf E1 ≤ (1 + snorm (min a.rank sk.length) sk) * C02.normTol (key.base2k * convSize a key) (a.base2k * a.size) ∧
+        normInf E3 ≤ (1 + snorm (min a.rank sk.length) sk) * C02.normTol (a.base2k * a.size) (key.base2k * key.mat.size) ∧
+        (2 : Ks.R N) ^ (a.base2k * a.size + key.base2k * key.mat.size) * Ks.ι N (valP a.base2k N (phase sk res))
+          = (sgA f : Ks.R N) *
+              ((2 : Ks.R N) ^ (a.base2k * a.size + key.base2k * key.mat.size) * Ks.ι N (σ key.p (valP a.base2k N (phase sk a)))
+                + Ks.ι N (σ key.p (ksErr (2 ^ (a.base2k * a.size + key.base2k * (key.mat.size - convSize a key)))
+                    (2 ^ (a.base2k * a.size + a.base2k * a.size)) 0 E1 (Ks.errL N key.base2k (aDftOf aConv) key EL)
+                    (Ks.dropL N key.base2k (sk.map (σ gInv)) (aDftOf aConv) key) (zeroP N))))
+            + (sgB f : Ks.R N) *
+              ((2 : Ks.R N) ^ (a.base2k * a.size + key.base2k * key.mat.size) * Ks.ι N (valP a.base2k N (phase sk a))
+                + Ks.ι N (polyScale (2 ^ (a.base2k * a.size + key.base2k * (key.mat.size - convSize a key))) E1))
+            + Ks.ι N (polyScale (2 ^ (a.base2k * a.size)) E3)
+            + (2 : Ks.R N) ^ (a.base2k * a.size + a.base2k * a.size + key.base2k * key.mat.size) * Q ∧
+        normInf (σ key.p (ksErr (2 ^ (a.base2k * a.size + key.base2k * (key.mat.size - convSize a key)))
+                    (2 ^ (a.base2k * a.size + a.base2k * a.size)) 0 E1 (Ks.errL N key.base2k (aDftOf aConv) key EL)
+                    (Ks.dropL N key.base2k (sk.map (σ gInv)) (aDftOf aConv) key) (zeroP N)))
+          ≤ 2 ^ (a.base2k * a.size + key.base2k * (key.mat.size - convSize a key)) *
+              ((1 + snorm (min a.rank sk.length) sk) * C02.normTol (key.base2k * convSize a key) (a.base2k * a.size))
+            + 2 ^ (a.base2k * a.size + a.base2k * a.size) * gadgetBound N key.base2k (aDftOf aConv) key EL
+            + 2 ^ (a.base2k * a.size + a.base2k * a.size) * dropBound N key.base2k (sk.map (σ gInv)) (aDftOf aConv) key :=
+  KsDec.glwe_automorphism_fused_assign_decrypts f big128 N a key sk gInv EL KL Hin Hp hN hg hsk hinv ha hrank hrout hc0 hD hM hS hbi1 hbi hbk1 hbk hIn0 hIn hInB hHp0 hAcc hprod hs hEL hKL hkey hcov1 hcov2
+
+
+/-- closed instances with every hypothesis discharged (`N = 1`, `g = 1`; `N = 2`, `g = 3 ≡ −1`, all three fused forms, both accumulator
+widths): the `example`s at the end of `Lemmas/AutoDecrypt.lean`; here the executed calls on the `N = 1` instance -/
+example : ∃ res, Ks.automorphism false 3 2 0 KsDec.exCt Ks.AccumExample.exKey3 = .ok res := ⟨_, rfl⟩
+end AutoDecryptSec
+
+section LweDecryptSec
+open KsDec Hal Core Core.Ops C02L AutoMul LweIdx
+variable {M : Type*} [AddCommGroup M]
+
+/-- `glwe_keyswitch_decrypts` read coefficient by coefficient (integers: `2^(…)·val_out[t] = 2^(…)·val_in[t] + e + 2^(…)·q`, `|e| ≤ ksBound`) -/
+theorem glwe_keyswitch_decrypts_coeff (big128 : Bool) (N bout sout rout : Nat) (a : Ks.Ct) (key : Ks.Key) (sIn skOut : List Poly)
+    (EL KL : ℕ → ℕ → Poly) (Hin Hp : Int) (h : KsSide big128 N bout sout rout a key sIn skOut EL KL Hin Hp)
+    (ha : GWF N a) (hInB : ∀ c ∈ a.cols, ∀ l ∈ c, ∀ x ∈ l, |x| ≤ Hin) :
+    ∃ res aConv, Ks.keyswitch big128 bout sout rout a key = .ok res ∧ Ks.convIn a key = .ok aConv ∧
+      GWF N res ∧ res.base2k = bout ∧ res.size = sout ∧ res.rank = rout ∧
+      ∀ t, t < N → ∃ e q : Int,
+        2 ^ (a.base2k * a.size + key.base2k * key.mat.size) * valCoeff bout (phase skOut res) t
+          = 2 ^ (bout * sout + key.base2k * key.mat.size) * valCoeff a.base2k (phase sIn a) t + e
+            + 2 ^ (a.base2k * a.size + bout * sout + key.base2k * key.mat.size) * q ∧
+        |e| ≤ ksBound N bout sout rout a aConv key sIn skOut EL :=
+  KsDec.glwe_keyswitch_decrypts_coeff big128 N bout sout rout a key sIn skOut EL KL Hin Hp h ha hInB
+
+/-- **`lwe_keyswitch_decrypts`** — END TO END: the LWE phase value of the result under `sOut` is the LWE phase value of the input under `sIn` plus `e`, `|e| ≤ ksBound` (embedding `[b,0…]`,`[a…,0…]` under the `σ_{−1}` secrets, GLWE key switch, sample extraction) -/
+theorem lwe_keyswitch_decrypts (big128 : Bool) (n bout sout nOut : Nat) (a : Ks.Lwe) (key : Ks.Key) (sIn sOut : Poly)
+    (EL KL : ℕ → ℕ → Poly) (Hin Hp : Int)
+    (h : KsSide big128 n bout sout 1 (lweEmb n a) key (embSk n sIn) (embSk n sOut) EL KL Hin Hp)
+    (hInB : ∀ limb ∈ a.data, ∀ x ∈ limb, |x| ≤ Hin)
+    (hnIn : a.nLwe ≤ n) (hnOut : nOut ≤ n) (hsIn : sIn.length = a.nLwe) (hsOut : sOut.length = nOut) :
+    ∃ res aConv, Ks.lweKeyswitch big128 n bout sout nOut a key = .ok res ∧ Ks.convIn (lweEmb n a) key = .ok aConv ∧
+      res.base2k = bout ∧ res.nLwe = nOut ∧ res.data.length = sout ∧
+      ∃ e q : Int,
+        2 ^ (a.base2k * a.data.length + key.base2k * key.mat.size) * lwePhaseVal bout res sOut
+          = 2 ^ (bout * sout + key.base2k * key.mat.size) * lwePhaseVal a.base2k a sIn + e
+            + 2 ^ (a.base2k * a.data.length + bout * sout + key.base2k * key.mat.size) * q ∧
+        |e| ≤ ksBound n bout sout 1 (lweEmb n a) aConv key (embSk n sIn) (embSk n sOut) EL :=
+  KsDec.lwe_keyswitch_decrypts big128 n bout sout nOut a key sIn sOut EL KL Hin Hp h hInB hnIn hnOut hsIn hsOut
+
+/-- **`glwe_to_lwe_decrypts`** (`lwe_from_glwe`, every extraction index): LWE phase of the result = coefficient `idx` of the GLWE phase of the input + `e` -/
+theorem glwe_to_lwe_decrypts (big128 : Bool) (N bout sout nOut : Nat) (a : Ks.Ct) (idx : Nat) (key : Ks.Key) (sIn : List Poly) (sOut : Poly)
+    (EL KL : ℕ → ℕ → Poly) (Hin Hp : Int)
+    (h : KsSide big128 N bout sout 1 (rotIn a idx) key sIn (embSk N sOut) EL KL Hin Hp)
+    (ha : GWF N a) (hInB : ∀ c ∈ a.cols, ∀ l ∈ c, ∀ x ∈ l, |x| ≤ Hin) (hidx : idx < N)
+    (hnOut : nOut ≤ N) (hsOut : sOut.length = nOut) :
+    ∃ res aConv, Ks.lweFromGlwe big128 bout sout nOut a idx key = .ok res ∧ Ks.convIn (rotIn a idx) key = .ok aConv ∧
+      res.base2k = bout ∧ res.nLwe = nOut ∧ res.data.length = sout ∧
+      ∃ e q : Int,
+        2 ^ (a.base2k * a.size + key.base2k * key.mat.size) * lwePhaseVal bout res sOut
+          = 2 ^ (bout * sout + key.base2k * key.mat.size) * valCoeff a.base2k (phase sIn a) idx + e
+            + 2 ^ (a.base2k * a.size + bout * sout + key.base2k * key.mat.size) * q ∧
+        |e| ≤ ksBound N bout sout 1 (rotIn a idx) aConv key sIn (embSk N sOut) EL :=
+  KsDec.glwe_to_lwe_decrypts big128 N bout sout nOut a idx key sIn sOut EL KL Hin Hp h ha hInB hidx hnOut hsOut
+
+/-- **`lwe_to_glwe_decrypts`** (`glwe_from_lwe`, same and different radices): coefficient 0 of the GLWE phase of the result = LWE phase of the input + `e` -/
+theorem lwe_to_glwe_decrypts (big128 : Bool) (n bout sout rout : Nat) (a : Ks.Lwe) (key : Ks.Key) (sIn : Poly) (skOut : List Poly)
+    (EL KL : ℕ → ℕ → Poly) (Hin Hp : Int)
+    (h : KsSide big128 n bout sout rout (lweEmb n a) key (embSk n sIn) skOut EL KL Hin Hp)
+    (hInB : ∀ limb ∈ a.data, ∀ x ∈ limb, |x| ≤ Hin) (hnIn : a.nLwe ≤ n) (hsIn : sIn.length = a.nLwe) :
+    ∃ res aConv, Ks.glweFromLwe big128 n bout sout rout a key = .ok res ∧ Ks.convIn (lweEmb n a) key = .ok aConv ∧
+      GWF n res ∧ res.base2k = bout ∧ res.size = sout ∧ res.rank = rout ∧
+      ∃ e q : Int,
+        2 ^ (a.base2k * a.data.length + key.base2k * key.mat.size) * valCoeff bout (phase skOut res) 0
+          = 2 ^ (bout * sout + key.base2k * key.mat.size) * lwePhaseVal a.base2k a sIn + e
+            + 2 ^ (a.base2k * a.data.length + bout * sout + key.base2k * key.mat.size) * q ∧
+        |e| ≤ ksBound n bout sout rout (lweEmb n a) aConv key (embSk n sIn) skOut EL :=
+  KsDec.lwe_to_glwe_decrypts big128 n bout sout rout a key sIn skOut EL KL Hin Hp h hInB hnIn hsIn
+
+
+/-- closed instances with every hypothesis discharged (`N = 2` key `KsDec.exKey11`, `idx = 1`; `N = 1` same- and cross-radix): the `example`s at
+the end of `Lemmas/LweDecrypt.lean`; here: the value-level index map on a concrete LWE sample -/
+example : KsDec.lwePhaseVal 4 { base2k := 4, nLwe := 2, data := [[7, 5, 11]] } [2, -3] = 7 + (5 * 2 + 11 * (-3)) := by decide
+end LweDecryptSec
+
+section NoisyTraceSec
+open Hal Core Ks Pack
+variable {M : Type*} [AddCommGroup M]
+
+/-- **`glwe_trace_decrypts`** — the executed trace loop with noise: under the per-level noisy contracts (`glwe_rsh(1)` halves up to `≤ Br`; `glwe_automorphism_add_assign` of level `i` gives `φ + σ_i φ` up to `≤ Ba i` — `glwe_automorphism_add_decrypts`), the result's phase is the partial trace `traceAbs levels φ` plus an error of size `≤ Σ_{i∈levels}(2·Br + Ba i)` -/
+theorem glwe_trace_decrypts (c : Pack.Contract M) (ν : M → Int) (hν : SizeFn c ν) (ph : Ct → M) (big128 : Bool) (keys : List Key)
+    (Br : Int) (Ba : Nat → Int)
+    (hrsh : ∀ x y, glweRsh 1 x = .ok y → ∃ e, ph y = c.half (ph x) + e ∧ ν e ≤ Br)
+    (hauto : ∀ i x key p y, traceGalois x.n i = .ok p → keys.find? (fun k => k.p == p) = some key →
+      automorphismFused .add big128 (zeroBuf x.n (x.rank + 1) key.size) x.base2k x.size x.rank x key = .ok y →
+      (y.n = x.n ∧ ∃ e, ph y = ph x + c.sig i (ph x) + e ∧ ν e ≤ Ba i))
+    (hn : ∀ x y, glweRsh 1 x = .ok y → y.n = x.n)
+    (levels : List Nat) (x r : Ct) (h : traceLoop big128 keys x levels = .ok r) :
+    ∃ err, ph r = traceAbs c levels (ph x) + err ∧ ν err ≤ traceErrBound Br Ba levels :=
+  Ks.traceLoop_noisy c ν hν ph big128 keys Br Ba hrsh hauto hn levels x r h
+
+
+/-- the size-function contract is satisfiable (degenerate witness; the intended `ν` is `‖·‖_∞` of the coefficient list) -/
+example : Ks.SizeFn Pack.model (fun _ => (0 : Int)) := ⟨by intros; simp, by intros; simp, by intros; simp, by intros; simp, rfl⟩
+end NoisyTraceSec
 
 end C03
